@@ -416,7 +416,7 @@ class Collections:
                         out.unknown += sub.unknown
                         continue
                     sub = self._describe(v, depth - 1, busy | {key})
-                    ctx = conds_at(self.fi, d.stmt)
+                    ctx = self.fn.conds_all(d.stmt)
                     for c in sub.contribs:
                         if not c.context:
                             c.context = ctx
@@ -1008,7 +1008,7 @@ class Collections:
                     sb(c.value),
                     c.binders[:idx] + inner_binders + [Binder(bb.target, sb(bb.source) if not bb.root else bb.source, bb.loop, bb.root, bb.site, bb.via) for bb in c.binders[idx + 1:]],
                     inner_conds + [(sb(x), p) for x, p in c.conds],
-                    c.context,
+                    list(c.context) + [x for x in ci.context if not any(x[0] is y[0] and x[1] == y[1] for y in c.context)],
                     c.node,
                     c.kind,
                     c.how,
